@@ -144,7 +144,8 @@ def main():
     tcfg = spec[tier]
     nshards = tcfg["shards"]
     budget = tcfg["budget_s"]
-    par = min(nshards, int(os.environ.get("VERIF_JOBS", "14")))
+    par = min(nshards, int(os.environ.get("VERIF_JOBS",
+                                          str(spec.get("max_par", 14)))))
     shutil.rmtree(f"{WORK}/{check_id}/s{seed}", ignore_errors=True)
     # witnesses of this (check, seed) are rewritten by this run
     rdir = os.environ.get("KVH_REPLAY_DIR", f"{VERIF}/replays")
